@@ -37,6 +37,25 @@ CHECKS = {
     ),
 }
 
+CHECKS.update({
+    "C17": dict(
+        level="model_checking", ref="5 (C17), 3.3",
+        technique="TLC: the find loop of find_all as a machine refines the leftmost-non-overlapping delimited-occurrence spec (Keyword.tla) for every (keyword, data) pair over {a,A,b,B,1,-}; KeywordTrace.tla re-derives the hits of real searcher calls (whole universe through a generated keyword directory, random wider alphabets, shipped lists)",
+        text="Refinement, the MixedCase truth table and soundness of reported starts are checked exhaustively in the bound (401k pairs quick, 2.4M thorough). The same universe is replayed through registry.get_keywords + find_keywords and each call's hits are compared by TLC with SearcherHits; shipped keyword lists are checked on every text met while scanning.",
+    ),
+    "C19": dict(
+        level="model_checking", ref="5 (C19), 3.2",
+        technique="TLC: the code-shaped flatten loop refines the two-phase (choose, then splice) reading of C19 over a bounded tree universe, with corollaries UnchangedId; TreeTrace.tla compares flatten() of real Node trees (universe, random deep trees, scan results) with the spec operator",
+        text="Flatten is specified declaratively (greedy choice of substituted children, then splicing) and the loop of node.py is checked against it for every tree of the universe (53k trees quick). Every universe tree is rebuilt from Node objects and flattened by the implementation; so are random trees with overlapping/nested children and the results of real scans; TLC recomputes the expected bytes.",
+    ),
+    "C20": dict(
+        level="model_checking", ref="5 (C20), 3.2",
+        technique="TLC: JSON round trip and injectivity theorems over the tree universe (TreeMC); TreeTrace.tla checks tree_to_json / json_to_tree / == / string_summary / squash_replace of real trees and the stdout of CLI sessions against JsonDoc, Summary, Squash, Flatten of the in-process tree",
+        text="RoundTrip, Injective, IterOnce, SquashAgrees are model-checked in the bound. For real trees (all byte values, non-ASCII labels, depth 40 chains, scan results) TLC compares the decoded JSON document, the tree decoded back (with parent links), equality against single-field mutants and the summary lines; CLI subprocess sessions (file/stdin, default/--json/--replace, --keywords) are compared with the library's tree for the same bytes.",
+        note="CLI sessions are exploration (a few dozen per quick run); " + TRUST,
+    ),
+})
+
 NOT_YET = {
     "C01": "check under construction in this session (Session.tla + drivers); not claimed until it runs clean",
     "C02": "check under construction (Layers.tla)",
